@@ -81,59 +81,6 @@ theorem C12_response_body_delegates (eos : ρ → Bool) (size : ρ → Nat) (fra
 
 /-! ### reject -/
 
-private theorem names_ne :
-    nameGrpcDetails ≠ nameGrpcMessage ∧ nameGrpcDetails ≠ nameGrpcStatus ∧
-    nameGrpcMessage ≠ nameGrpcStatus ∧ nameContentType ≠ nameGrpcStatus ∧
-    nameContentType ≠ nameGrpcMessage ∧ nameContentType ≠ nameGrpcDetails := by decide
-
-private theorem reserved_names :
-    Spec.Interceptor.reserved nameGrpcDetails = true ∧ Spec.Interceptor.reserved nameGrpcMessage = true ∧
-    Spec.Interceptor.reserved nameGrpcStatus = true ∧ Spec.Interceptor.reserved nameContentType = true ∧
-    (∀ k ∈ reservedHeaders, Spec.Interceptor.reserved k = true) := by decide
-
-private theorem code_table : ∀ c : Fin 17,
-    ((codeHeaderValue c.val).isEmpty = false ∧ (codeHeaderValue c.val).all Ascii.isDigit = true ∧
-     digitsVal (codeHeaderValue c.val) = c.val) := by decide
-
-/-- per-key content of the status's metadata contribution -/
-private theorem statusMetadataHeaders_getAll (st : GStatus) (k : Bytes) :
-    getAll k (statusMetadataHeaders st) =
-      if k = nameGrpcDetails ∨ k ∈ reservedHeaders then [] else getAll k st.metadata := by
-  unfold statusMetadataHeaders intoSanitizedHeaders
-  by_cases hd : k = nameGrpcDetails
-  · subst hd; simp [getAll_remove_self]
-  · rw [getAll_remove_ne _ _ _ hd]
-    by_cases hr : k ∈ reservedHeaders
-    · simp [hd, hr, getAll_removeAll_mem _ _ _ hr]
-    · simp [hd, hr, getAll_removeAll_not_mem _ _ _ hr]
-
-/-- `Status::add_header` never fails, and per key the map it produces is: the three status
-fields under their names, and under every other name what `extend` left. -/
-private theorem addHeader_getAll (st : GStatus) (h : Hdrs) :
-    ∃ H, addHeader st h = some H ∧ ∀ k, getAll k H =
-      if k = nameGrpcDetails ∧ st.details.isEmpty = false then [(B64.encode false st.details, false)]
-      else if k = nameGrpcMessage ∧ st.message.isEmpty = false then [(percentEncode st.message, false)]
-      else if k = nameGrpcStatus then [(codeHeaderValue st.code, false)]
-      else getAll k (extend h (statusMetadataHeaders st)) := by
-  obtain ⟨n1, n2, n3, _, _, _⟩ := names_ne
-  unfold addHeader addHeaderWith
-  simp only [percentEncode_valid, b64encode_valid, if_true]
-  cases hm : st.message.isEmpty <;> cases hd : st.details.isEmpty
-  all_goals
-    refine ⟨_, rfl, ?_⟩
-    intro k
-    by_cases k1 : k = nameGrpcDetails
-    · subst k1
-      simp [getAll_insert_self, getAll_insert_ne _ _ _ _ n1, getAll_insert_ne _ _ _ _ n2, n1, n2]
-    · by_cases k2 : k = nameGrpcMessage
-      · subst k2
-        simp [getAll_insert_self, getAll_insert_ne _ _ _ _ n3, getAll_insert_ne _ _ _ _ k1, k1, n3]
-      · by_cases k3 : k = nameGrpcStatus
-        · subst k3
-          simp [getAll_insert_self, getAll_insert_ne _ _ _ _ k1, getAll_insert_ne _ _ _ _ k2, k1, k2]
-        · simp [getAll_insert_ne _ _ _ _ k1, getAll_insert_ne _ _ _ _ k2, getAll_insert_ne _ _ _ _ k3,
-            k1, k2, k3]
-
 /-- Reject: the wrapped service is not invoked (its state is untouched), the response future
 does not panic, and the response is a trailers-only gRPC response that the spec's own decoder
 reads back as precisely the interceptor's status: HTTP 200, `application/grpc`, `grpc-status` =
@@ -149,63 +96,16 @@ theorem C12_reject (f : Icpt σ) (inner : Inner ι β ρ ε) (s s' : σ) (i : ι
     (call f inner s i req).icpt = s' ∧
     ∃ r, (call f inner s i req).out = .response r ∧
       Spec.Interceptor.allOk (Spec.Interceptor.rejectClauses st false (viewOf eos frames r)) = true := by
-  obtain ⟨H, hH, hget⟩ := addHeader_getAll st (insert nameContentType (grpcContentType, false) [])
-  obtain ⟨n1, n2, n3, n4, n5, n6⟩ := names_ne
+  obtain ⟨H, hH, hct, hst, hmsg, hdet, hrest⟩ := statusIntoHttp_headers () st
   obtain ⟨r1, r2, r3, r4, r5⟩ := reserved_names
-  have hbase : ∀ k, getAll k (insert nameContentType (grpcContentType, false) ([] : Hdrs)) =
-      if k = nameContentType then [(grpcContentType, false)] else [] := by
-    intro k
-    by_cases hk : k = nameContentType
-    · subst hk; simp [getAll_insert_self]
-    · simp [getAll_insert_ne _ _ _ _ hk, hk, getAll_nil]
-  -- per-key content of the final map for names other than the three status fields
-  have hother : ∀ k, getAll k (extend (insert nameContentType (grpcContentType, false) ([] : Hdrs))
-      (statusMetadataHeaders st)) =
-      if k = nameContentType then [(grpcContentType, false)]
-      else if k = nameGrpcDetails ∨ k ∈ reservedHeaders then [] else getAll k st.metadata := by
-    intro k
-    rw [getAll_extend, hbase]
-    cases hc : contains k (statusMetadataHeaders st)
-    · have := (contains_eq_false_iff _ _).mp hc
-      rw [statusMetadataHeaders_getAll] at this
-      by_cases hk : k = nameContentType
-      · simp [hk]
-      · simp only [hk, if_false, Bool.false_eq_true]
-        split at this
-        · simp [*]
-        · rename_i hn; simp [hn, this]
-    · have hne : getAll k (statusMetadataHeaders st) ≠ [] := by
-        intro e
-        have := (contains_eq_false_iff _ _).mpr e
-        rw [hc] at this; cases this
-      rw [statusMetadataHeaders_getAll] at hne ⊢
-      have hk : k ≠ nameContentType := by
-        intro e; subst e
-        simp [reservedHeaders, nameContentType] at hne
-      simp only [if_true, hk, if_false]
   refine ⟨?_, ?_, ?_, ?_⟩
   · simp [call, callWith, fromHttp, intoParts, fromParts, metadataFromHeaders, h]
   · simp [call, callWith, fromHttp, intoParts, fromParts, metadataFromHeaders, h]
   · simp [call, callWith, fromHttp, intoParts, fromParts, metadataFromHeaders, h]
   · refine ⟨{ status := 200, version := 11, headers := H, ext := [], body := RespBody.empty }, ?_, ?_⟩
-    · simp [call, callWith, fromHttp, intoParts, fromParts, metadataFromHeaders, h, rejectOutcomeWith,
-        statusIntoHttpWith, responseNew, hH]
-    · have hmres : nameGrpcMessage ∈ reservedHeaders := by decide
-      have hct : getAll nameContentType H = [(grpcContentType, false)] := by
-        rw [hget nameContentType, hother]
-        simp [n4, n5, n6]
-      have hst : getAll nameGrpcStatus H = [(codeHeaderValue st.code, false)] := by
-        rw [hget nameGrpcStatus]
-        simp [Ne.symm n2, Ne.symm n3]
-      have hmsg : getAll nameGrpcMessage H =
-          if st.message.isEmpty = false then [(percentEncode st.message, false)] else [] := by
-        rw [hget nameGrpcMessage, hother]
-        cases hm : st.message.isEmpty <;> simp [Ne.symm n1, n3, Ne.symm n5, hmres]
-      have hdet : getAll nameGrpcDetails H =
-          if st.details.isEmpty = false then [(B64.encode false st.details, false)] else [] := by
-        rw [hget nameGrpcDetails, hother]
-        cases hd : st.details.isEmpty <;> simp [n1, n2, Ne.symm n6]
-      have hcode := code_table ⟨st.code, by omega⟩
+    · simp only [statusIntoHttp] at hH
+      simp [call, callWith, fromHttp, intoParts, fromParts, metadataFromHeaders, h, rejectOutcomeWith, hH]
+    · have hcode := code_table ⟨st.code, by omega⟩
       have e1 : str "content-type" = nameContentType := rfl
       have e2 : str "grpc-status" = nameGrpcStatus := rfl
       have e3 : str "grpc-message" = nameGrpcMessage := rfl
@@ -232,8 +132,8 @@ theorem C12_reject (f : Icpt σ) (inner : Inner ι β ρ ε) (s s' : σ) (i : ι
           have k3 : k ≠ nameGrpcStatus := fun e => by rw [e, r3] at hr; cases hr
           have k4 : k ≠ nameContentType := fun e => by rw [e, r4] at hr; cases hr
           have k5 : k ∉ reservedHeaders := fun e => by rw [r5 k e] at hr; cases hr
-          rw [hget k, hother k]
-          simp [k1, k2, k3, k4, k5]
+          rw [hrest k k4 k3 k2 k1]
+          simp [k5]
         · left; rfl
       · simp [RespBody.isEndStream, RespBody.frames]
 
@@ -403,6 +303,92 @@ theorem C12_into_http_yes (req : Request β) (k : Bytes) :
   · simp [h, getAll_removeAll_mem _ _ _ h]
   · simp [h, getAll_removeAll_not_mem _ _ _ h]
 
+/-! ### client side: `Grpc<InterceptedService<T, F>>` (prepare_request → interceptor → transport) -/
+
+/-- What a client-side interceptor is shown: the request `prepare_request` built — `POST`,
+HTTP/2, `te: trailers`, `content-type: application/grpc`, the caller's extensions and body, and
+under every other name the caller's metadata except tonic's six reserved names (which
+`SanitizeHeaders::Yes` drops *before* the interceptor; what the interceptor then adds under such
+a name is kept, see `C12_accept`). -/
+theorem C12_client_prepare (pre op : Bytes) (q : Bool) (path : Bytes) (t : TRequest β) (k : Bytes) :
+    (prepareRequest pre op q path t).method = str "POST" ∧
+    (prepareRequest pre op q path t).version = 2 ∧
+    (prepareRequest pre op q path t).ext = t.extensions ∧
+    (prepareRequest pre op q path t).body = t.message ∧
+    getAll k (prepareRequest pre op q path t).headers =
+      if k = nameContentType then [(grpcContentType, false)]
+      else if k = str "te" then [(str "trailers", false)]
+      else if k ∈ reservedHeaders then [] else getAll k t.metadata := by
+  refine ⟨rfl, rfl, rfl, rfl, ?_⟩
+  simp only [prepareRequest, intoHttp, intoSanitizedHeaders]
+  by_cases h1 : k = nameContentType
+  · subst h1; simp [getAll_insert_self]
+  · rw [getAll_insert_ne _ _ _ _ h1]
+    by_cases h2 : k = str "te"
+    · subst h2; simp [getAll_insert_self, h1]
+    · rw [getAll_insert_ne _ _ _ _ h2]
+      by_cases h3 : k ∈ reservedHeaders
+      · simp [h1, h2, h3, getAll_removeAll_mem _ _ _ h3]
+      · simp [h1, h2, h3, getAll_removeAll_not_mem _ _ _ h3]
+
+/-- Client side, reject, end to end through tonic's own response handling: when the interceptor
+rejects with a non-OK status, the transport is never invoked and `Grpc::server_streaming`
+returns `Err(status')` where `status'` has the same code, message and details, and the same
+values under every non-reserved metadata name.  Hypotheses: the message is what Rust calls
+UTF-8 (it is a `String`), and the status metadata does not use the name `grpc-encoding` (the
+client would take it for a compressed response; see the report). -/
+theorem C12_client_reject (utf8 : Bytes → Bool) (f : Icpt σ) (inner : Inner ι β ρ ε) (s s' : σ) (i : ι)
+    (pre op : Bytes) (q : Bool) (path : Bytes) (t : TRequest β) (st : GStatus)
+    (hcode : 1 ≤ st.code ∧ st.code ≤ 16) (hutf : utf8 st.message = true)
+    (henc : getAll (str "grpc-encoding") st.metadata = [])
+    (h : f s ((prepareRequest pre op q path t).headers, (prepareRequest pre op q path t).ext) = (s', .error st)) :
+    (clientCall utf8 f inner s i pre op q path t).1.innerSaw = none ∧
+    (clientCall utf8 f inner s i pre op q path t).1.inner = i ∧
+    ∃ st', (clientCall utf8 f inner s i pre op q path t).2 = .err st' ∧
+      st'.code = st.code ∧ st'.message = st.message ∧ st'.details = st.details ∧
+      ∀ k, Spec.Interceptor.reserved k = false → getAll k st'.metadata = getAll k st.metadata := by
+  obtain ⟨H, hH, hct, hst, hmsg, hdet, hrest⟩ := statusIntoHttp_headers () st
+  obtain ⟨r1, r2, r3, r4, r5⟩ := reserved_names
+  obtain ⟨n1, n2, n3, n4, n5, n6⟩ := names_ne
+  have hcall : (call f inner s i (prepareRequest pre op q path t)).out =
+      .response { status := 200, version := 11, headers := H, ext := [], body := RespBody.empty } := by
+    simp only [statusIntoHttp] at hH
+    simp [call, callWith, fromHttp, intoParts, fromParts, metadataFromHeaders, h, rejectOutcomeWith, hH]
+  refine ⟨?_, ?_, ?_⟩
+  · simp [clientCall, call, callWith, fromHttp, intoParts, fromParts, metadataFromHeaders, h]
+  · simp [clientCall, call, callWith, fromHttp, intoParts, fromParts, metadataFromHeaders, h]
+  · have henc' : getAll (str "grpc-encoding") H = [] := by
+      rw [hrest _ (by decide) (by decide) (by decide) (by decide)]
+      have : str "grpc-encoding" ∉ reservedHeaders := by decide
+      simp [this, henc]
+    have hc := codeFromBytes_codeHeaderValue ⟨st.code, by omega⟩
+    simp only at hc
+    have hmsg' : messageFromHeaders utf8 H = some st.message := by
+      rw [messageFromHeaders, hmsg]
+      cases hm : st.message.isEmpty
+      · simp [percentDecodeLenient_percentEncode, hutf]
+      · simp [List.isEmpty_iff.mp hm]
+    have hdet' : detailsFromHeaders H = some st.details := by
+      rw [detailsFromHeaders, hdet]
+      cases hd : st.details.isEmpty
+      · simp [B64.decode_encode]
+      · simp [List.isEmpty_iff.mp hd]
+    have hne : (st.code != 0) = true := by simp; omega
+    refine ⟨{ code := st.code, message := st.message, details := st.details,
+              metadata := remove nameGrpcDetails (remove nameGrpcMessage (remove nameGrpcStatus H)) }, ?_, rfl, rfl, rfl, ?_⟩
+    · simp only [clientCall, hcall, createResponse, henc', List.head?_nil, createResponse.go,
+        statusFromHeaderMap, hst, List.head?_cons, hmsg', hdet', metadataFromHeaders, hc, hne, if_true]
+    · intro k hk
+      have k1 : k ≠ nameGrpcDetails := fun e => by rw [e, r1] at hk; cases hk
+      have k2 : k ≠ nameGrpcMessage := fun e => by rw [e, r2] at hk; cases hk
+      have k3 : k ≠ nameGrpcStatus := fun e => by rw [e, r3] at hk; cases hk
+      have k4 : k ≠ nameContentType := fun e => by rw [e, r4] at hk; cases hk
+      have k5 : k ∉ reservedHeaders := fun e => by rw [r5 k e] at hk; cases hk
+      simp only
+      rw [getAll_remove_ne _ _ _ k1, getAll_remove_ne _ _ _ k2, getAll_remove_ne _ _ _ k3,
+        hrest k k4 k3 k2 k1]
+      simp [k5]
+
 /-! ### non-vacuity -/
 
 private def exReq : Request Nat :=
@@ -442,5 +428,17 @@ example :
      | none => ([], [], [], [])) =
       ([(str "16", false)], [(str "h%C3%A9%25%20", false)], [(str "1", false), (str "2", false)],
        [(str "+/8", false)]) := by decide
+
+/-- the hypotheses of `C12_client_reject` are met (code 7, UTF-8 message, no `grpc-encoding`), and
+the client-side decoding is exercised on a concrete status with forged names in its metadata -/
+example :
+    (clientCall (fun _ => true) (fun (_ : Unit) _ => ((), .error { exStatus with code := 7 }))
+        (fun (n : Nat) (_ : Request Nat) => (n + 1, (.error () : Except Unit (Response Unit)))) () 0
+        (str "http://h") [] false (str "/s/m")
+        { metadata := [(str "user-agent", (str "ua", false)), (str "x-a", (str "1", false))],
+          message := 5, extensions := [] }).2 =
+      .err { code := 7, message := [104, 195, 169, 37, 32], details := [251, 255],
+             metadata := [(str "content-type", (str "application/grpc", false)),
+                          (str "x-a", (str "1", false)), (str "x-a", (str "2", false))] } := by decide
 
 end C12
